@@ -13,6 +13,7 @@ CONSTANTS
   RecheckRef = TRUE
   AtomicFin = FALSE
   RecheckClosed = FALSE
+  ClearDelf = TRUE
   CloseExcl = FALSE
 SYMMETRY Symm
 VIEW View
